@@ -100,7 +100,11 @@ Section C17source.
     Inv Epoch Tr Mx trans_of mat_of (fst (StateSpace_states_body Epoch Tr Mx eqk trans_of s)) /\
     snd (StateSpace_states_body Epoch Tr Mx eqk trans_of s) = trans_of (ss_epoch Epoch Tr Mx s).
   Proof. exact (gen_states_inv Epoch Tr Mx eqk trans_of mat_of eqk_sound). Qed.
+  Theorem C17_state_space_py_any_history_returns_what_fresh_objects_return : forall ops e flag,
+    snd (grun Epoch Tr Mx eqk trans_of mat_of (StateSpace_init Epoch Tr Mx e flag) ops) = map (pure Epoch Tr Mx trans_of mat_of) ops.
+  Proof. exact (source_any_history_same_answer Epoch Tr Mx eqk trans_of mat_of eqk_sound). Qed.
 End C17source.
+Print Assumptions C17_state_space_py_any_history_returns_what_fresh_objects_return.
 Print Assumptions C17_state_space_py_update_epoch_is_the_model.
 Print Assumptions C17_state_space_py_reading_S_is_the_model.
 Print Assumptions C17_state_space_py_drops_are_the_model.
